@@ -48,7 +48,10 @@ class FileSystemArtifactStore(SerializedArtifactStore):
         return path
 
     def _get_glob(self, node_id: NodeId) -> t.List[Path]:
-        return list(Path(self._ensure_dir()).glob(f'{node_id}.*'))
+        directory = Path(self._ensure_dir())
+        candidates = [directory / f'{node_id}.{fmt.value}' for fmt in DataFormat]
+
+        return [path for path in candidates if path.exists()]
 
     @dont_use_for_prod
     async def save(self, node_id: NodeId, data: NodeResultT, fmt: DataFormat = DataFormat.PICKLE) -> None:
